@@ -139,31 +139,6 @@ def probe_grouped(enc: str) -> bool:
     raise ValueError(f"codec {enc}: unexpected error run structure {seen}")
 
 
-def int_tables():
-    """what int(s, 16) knows about non-ASCII characters"""
-    spaces, digits = [], []
-    for x in range(128, 0x110000):
-        c = chr(x)
-        try:
-            a = int("5" + c, 16)
-        except ValueError:
-            a = None
-        b = None
-        if a is not None:
-            try:
-                b = int(c + "5", 16)
-            except ValueError:
-                b = None
-        if a == 5 and b == 5:
-            spaces.append(x)
-        elif a is not None:
-            d = a - 0x50
-            if not (0 <= d < 16) or b != d * 16 + 5:
-                raise ValueError(f"int(): unexpected behaviour for U+{x:04X}")
-            digits.append((x, d))
-    return spaces, digits
-
-
 _GEN_CACHE = {}
 
 
@@ -227,7 +202,6 @@ def gen_data():
                                   count=len(t))
         else:
             raise ValueError(f"{enc}: encodings of up to {maxlen} bytes are outside the model")
-    d["spaces"], d["digits"] = int_tables()
     d["re_unicode"] = E.BACKSLASH_UNICODE.pattern
     d["re_mif"] = E.MIF_ENCODED.pattern
     return d
@@ -276,12 +250,6 @@ def regenerate(ctx):
                    f"  trails := {nats(v['trails'])}\n  lossy := {nats(v['lossy'])}\n  count := {v['count']}")
     out.append("def dbcsInfos : List Dbcs := [" + ", ".join(f"{e}Info" for e in d["dbcs"]) + "]")
     out.append("")
-    out.append("/-- non-ASCII characters `int()` strips as white space / accepts as decimal digits -/")
-    out.append(f"def uniSpaces : List Nat :=\n  {nats(d['spaces'])}")
-    out.append("def uniDigits : List (Nat × Nat) :=\n  " + lean_list(f"({x}, {v})" for x, v in d["digits"]))
-    out.append("def uniTab : UniTab where\n  space x := uniSpaces.contains x\n"
-               "  digit x := (uniDigits.find? (fun p => p.1 = x)).map (·.2)")
-    out.append("")
     out.append(f"def backslashUnicodePattern : String := {lean_str(d['re_unicode'])}")
     out.append(f"def mifEncodedPattern : String := {lean_str(d['re_mif'])}")
     out.append("")
@@ -298,7 +266,7 @@ RULE = (
     "CJK code pages (per-character encodings supplied by the codec, escape logic by the model) on single code points, all "
     "category triples and seeded random mixed strings; X3 bytes.decode(codec, 'surrogateescape') for utf8 (structured "
     "malformed sequences) and the single-byte pages (all 256 bytes); X4 decode_dxf_unicode / has_dxf_unicode / re.split / "
-    "has_mif_encoding / recover.byte_tag_compiler string branch / int(s,16) / chr on exhaustive short and random strings "
+    "has_mif_encoding / recover.byte_tag_compiler string branch on exhaustive short and random strings "
     "over an escape alphabet; X5 toencoding / tocodepage on table keys with prefixes/suffixes and random names; X6 the whole "
     "pipeline encode -> decode -> decode_dxf_unicode. non-trivial = reaches the handler / a match / a non-default table "
     "branch; distinct by hash of the request line. oracle: real Drawing.saveas -> ezdxf.readfile / recover.readfile round "
@@ -311,7 +279,7 @@ TRUSTED_BASE = [
     "the single-byte tables and UTF-8 are modelled and proved lawful; that CPython's codecs equal these models is "
     "tabulated/corresponded, not proved",
     "CPython `re` for the two small patterns (hand model, pattern text pinned by theorem regex_patterns_as_modelled)",
-    "CPython int(s,16)/chr (hand model + tabulated Unicode space/digit sets)",
+    "int(s,16)/chr are only applied to four upper case hex digits (after fix 3fc8e70de): modelled as their positional value",
     "TextIOWrapper(errors='dxfreplace') behaves like str.encode per written string (exercised by the oracle only)",
 ]
 ASSUMPTIONS = [
@@ -412,20 +380,6 @@ def impl_recover(s: str) -> str:
     if len(tags) != 1 or tags[0].code != 1:
         return f"other {tags!r}"
     return "ok " + cps(tags[0].value)
-
-
-def impl_int16(s: str) -> str:
-    try:
-        return "ok " + str(int(s, 16))
-    except Exception as e:  # noqa
-        return "err " + exc_name(e)
-
-
-def impl_chr(n: int) -> str:
-    try:
-        return "ok " + str(ord(chr(n)))
-    except Exception as e:  # noqa
-        return "err " + exc_name(e)
 
 
 def impl_rt(enc: str, s: str) -> str:
@@ -675,13 +629,8 @@ def correspond(ctx):
         cases.append((f"split|{c}", impl_split(s), nt))
         if kind != "exh" or len(s) <= 3:
             cases.append((f"hasmif|{c}", "1" if has_mif_encoding(s) else "0", nt))
-            cases.append((f"int16|{c}", impl_int16(s), True))
         if "\n" not in s and "\r" not in s and "\x00" not in s:
             cases.append((f"recover|{c}", impl_recover(s), nt))
-    for n in [-2 ** 63, -2 ** 31 - 1, -2 ** 31, -1, 0, 65, 0xD800, 0x10FFFF, 0x110000, 2 ** 31 - 1, 2 ** 31, 2 ** 64]:
-        cases.append((f"chr|{n}", impl_chr(n), True))
-    for tail in INT_TAILS:
-        cases.append((f"int16|{cps(tail)}", impl_int16(tail), True))
     ctx.correspond("X4 unescape", "C09", cases)
 
     # ---- X5 names
@@ -1083,9 +1032,14 @@ def oracle(ctx):
 
     d = gen_data()
     tally = Tally(ctx)
-    # O2: the function level pipeline on every BMP code point x every codec (cheap, exhaustive in both tiers)
+    # O2: the function level pipeline on single BMP code points x every codec
+    # (thorough: every plain BMP code point; quick: U+0020..U+05FF, 24 per 256-block, the codec's own sweep points)
+    base = None
+    if ctx.quick:
+        base = set(range(0x20, 0x600)) | set(stratified_codepoints(ctx, "o2", 24))
     for enc in d["codecs"] + ["utf8"]:
-        for x in range(0x20, 0x10000):
+        pts = range(0x20, 0x10000) if base is None else sorted(base | set(sweep_codepoints(ctx, enc)))
+        for x in pts:
             if is_plain_char(x):
                 ctx.count("O2 function level", (enc, x), x >= 0x80)
                 check_function(tally, enc, "a" + chr(x) + "b")
